@@ -16,6 +16,7 @@ GROUPS = {
             Rec("Cell2d", {"coordinate": I2}),
             Rec("GridNd", {"dimensions": LI, "torus": "Bool"}),
             Rec("CellNd", {"coordinate": LI}),
+            Rec("GridCells", {"dimensions": LI, "all_cells": ("L", ("R", "CellNd"))}),
         ],
         "fns": [
             # `cell.connect(self._cells[k], key)` is the effect (k, key): cells are named by their key in `_cells`
@@ -25,6 +26,11 @@ GROUPS = {
             Fn("C07", "mesa/discrete_space/grid.py", "Grid._connect_single_cell_nd", "connect_single_cell_nd",
                {"cell": ("R", "CellNd"), "offsets": ("L", LI)}, self_rec="GridNd",
                effects={"cell.connect": ("T", LI, LI)}, keyed=("self._cells",)),
+            # the n-D offset tables: the call `self._connect_single_cell_nd(cell, offsets)` is the effect (cell, offsets)
+            Fn("C07", "mesa/discrete_space/grid.py", "OrthogonalMooreGrid._connect_cells_nd", "moore_connect_cells_nd",
+               {}, self_rec="GridCells", effects={"self._connect_single_cell_nd": ("T", ("R", "CellNd"), ("L", LI))}),
+            Fn("C07", "mesa/discrete_space/grid.py", "OrthogonalVonNeumannGrid._connect_cells_nd", "vn_connect_cells_nd",
+               {}, self_rec="GridCells", effects={"self._connect_single_cell_nd": ("T", ("R", "CellNd"), ("L", LI))}),
         ],
     },
 }
@@ -32,10 +38,13 @@ GROUPS = {
 REGISTRY = {
     "C07": {
         "groups": ["Cells"],
-        "functions": ["Grid._connect_single_cell_2d", "Grid._connect_single_cell_nd"],
+        "functions": ["Grid._connect_single_cell_2d", "Grid._connect_single_cell_nd",
+                      "OrthogonalMooreGrid._connect_cells_nd", "OrthogonalVonNeumannGrid._connect_cells_nd"],
         "lean_modules": ["MesaModel.Proofs.XlateCells"],
         "theorems": ["Mesa.Cells." + t for t in (
-            "C07_gen_connect_single_cell_2d_eq_model", "C07_gen_connect_single_cell_nd_eq_model")],
+            "C07_gen_connect_single_cell_2d_eq_model", "C07_gen_connect_single_cell_nd_eq_model",
+            "C07_gen_moore_connect_cells_nd_eq_model", "C07_gen_vn_connect_cells_nd_eq_model",
+            "C07_connect_spec_generated", "C07_offsets_spec_generated")],
     },
 }
 
